@@ -1259,6 +1259,10 @@ impl ArchiveBuilder {
             // Multi-sector file
             let sector_count = file_data.len().div_ceil(*sector_size);
 
+            // A sectored file always carries a sector offset table, which readers only interpret when
+            // COMPRESS is set; sectors whose stored size equals their raw size are read as raw.
+            flags |= BlockEntry::FLAG_COMPRESS;
+
             // Set CRC flag early if enabled (needed for encryption key calculation)
             if self.generate_crcs {
                 flags |= BlockEntry::FLAG_SECTOR_CRC;
